@@ -600,6 +600,8 @@ def big(rng):
     put('D412', f'=MATCH(A411,CA1:CA{n_tab},1)', 'lookup', keys + [addr(S1, 'A411')])
     put('D413', f'=INDEX(CB1:CB{n_tab},{n_tab - 7})+D410', 'index', vals + [addr(S1, 'D410')])
     put('D414', f'=VLOOKUP(A411,CA1:CB{n_tab},2,TRUE)+D412', 'lookup', keys + vals + [addr(S1, 'A411'), addr(S1, 'D412')])
+    # (the last cell of the last column of the last sheet - where a saved model's text ends - has a reader of its own)
+    put('D415', f'=CB{n_tab}*2+D411', 'arith', [addr(S1, f'CB{n_tab}'), addr(S1, 'D411')])
     # 4. a dozen sheets added up
     n_sheets = rng.randint(10, 14)
     terms, deps = [], []
